@@ -229,6 +229,10 @@ pub fn run(ctx: &mut Ctx) {
         1 => "\\PC{1,3}".prop_map(|s| s),
         1 => prop_oneof![Just("com"), Just("co.uk"), Just("ck"), Just("www.ck"), Just("xn--55qx5d.cn"), Just("公司.cn"), Just("kawasaki.jp"), Just("city.kawasaki.jp"), Just("*"), Just("!"), Just(" ")].prop_map(|s| s.to_string()),
         1 => (1usize..400).prop_map(|n| "abcdefghij.".repeat(n)),
+        // numeric labels and whole address literals (they are names like any other for the suffix algorithm)
+        1 => (0u16..300).prop_map(|n| n.to_string()),
+        1 => any::<[u8; 4]>().prop_map(|b| format!("{}.{}.{}.{}", b[0], b[1], b[2], b[3])),
+        1 => prop_oneof![Just("::1"), Just("::ffff:1.2.3.4"), Just("[::1]"), Just("fe80::1"), Just("2001:db8::1"), Just("127.1"), Just("0x7f.0.0.1"), Just("1.2.3.4.5")].prop_map(|s| s.to_string()),
     ];
     // labels mostly joined by single dots so that most strings are names without empty labels; rule tails are
     // appended often, in original or mangled case
@@ -280,6 +284,14 @@ pub fn run(ctx: &mut Ctx) {
         Search::Pass => {}
         Search::Fail(v, msg) => ctx.violation("structural", json!({"string": v}), &msg),
     }
+    // address literals and numeric names: no rule matches, the implicit rule applies like for any other name
+    for s in ["192.168.0.1", "1.2.3.4", "255.255.255.255", "0.0.0.0", "127.0.0.1", "10.0.0.1", "::1", "::ffff:1.2.3.4", "::ffff:192.168.0.1", "[::1]", "fe80::1", "1", "1.2", "127.1", "1.2.3.4.5", "256.1.1.1", "01.2.3.4", "1.2.3.d"] {
+        ctx.eval();
+        ctx.class("literal/address-like");
+        if let Err(e) = check_structural(s).and_then(|_| if s.split('.').any(|l| l.is_empty()) { Ok(()) } else { check_canonical(psl_ref, s).map(|_| ()) }) {
+            ctx.violation("structural-fixed", json!({"string": s}), &e);
+        }
+    }
     // a few fixed adversarial strings
     for s in ["", ".", "..", "a.", ".a", "a..b", "COM", "Example.COM", "\u{0}", "com.", "*.ck", "!www.ck", "xn--", "xn--.com", &"a.".repeat(20000), &"a".repeat(100000)] {
         ctx.eval();
@@ -296,7 +308,12 @@ pub fn replay(ctx: &mut Ctx, stage: &str, case: &Value) -> Result<(), String> {
         check_canonical(&psl, n)?;
         check_structural(n)
     } else if let Some(s) = case.get("string").and_then(|v| v.as_str()) {
-        check_structural(s)
+        check_structural(s)?;
+        if !(s.is_empty() || s.split('.').any(|l| l.is_empty())) {
+            let psl = Psl::load()?;
+            check_canonical(&psl, s)?;
+        }
+        Ok(())
     } else {
         Err(format!("bad replay case for stage {stage}"))
     }
